@@ -146,6 +146,9 @@ IMPORT_GRAPHS = [
     {"main.asm": '.macro m() { .import * from "a.asm" }\nm()\nm()', "a.asm": "x: nop"},
     {"main.asm": '.loop 3 { .import * from "a.asm" }', "a.asm": "x: nop"},
     {"main.asm": '.if 0 { .import * from "a.asm" }\nnop', "a.asm": '.import * from "main.asm"'},
+    # an imported file that defines one of the symbols the assembler registers for a segment at the end of a pass
+    {"main.asm": '.define segment { name = "code" start = $2000 }\n.import * from "lib.asm"\nnop', "lib.asm": "segments: {\n  code: {\n    end: rts\n  }\n}"},
+    {"main.asm": '.define segment { name = "code" start = $2000 }\nnop\n.import * from "lib.asm"', "lib.asm": "segments: { code: { start: nop } }"},
     # cycles in which every import is spelled with a dot segment
     {"main.asm": '.import * from "sub/../main.asm"\nnop', "sub/x.asm": "nop"},
     {"main.asm": '.import * from "./main.asm"\nnop'},
